@@ -1,7 +1,8 @@
 SPECIFICATION Spec
 CONSTANTS
   ValSets <- MCValSets
-  Heights = {2, 3, 4}
+  Roots <- MCRoots
+  Heights = {2, 3}
   Times = {1, 3}
   MaxNow = 4
   TP = 3
